@@ -23,7 +23,7 @@ pub fn def() -> CheckDef {
         },
         gen,
         run,
-        rule: "one workload (its fault positions spread over 8 cases, k mod 8) = a drawn mutating workload from an empty file (create storages/streams; handle writes that stay mini, stay regular, migrate both ways; set_len; removes; setters; explicit flush on handles and on the file; <= 40 calls, V3/V4, drawn max_buffer_size). A fault-free reference run counts the N underlying seam calls; then the workload is re-run with one fault at EVERY k in 1..N in each kind applicable to call k: fail (F-WE / F-SE / F-FE / F-RE), torn write with a drawn prefix (F-WT), and disk-full from k on, healed after the first failing API call (F-DF). A failing API call is retried (<= 3 times), then the rest of the workload runs. Oracles: (1) an API call during which a write/seek/flush fault fired returns Err; (2) nothing panics or exceeds its step budget; (3) whenever flush() on a handle returns Ok - first try or retry - a fresh handle on the live file AND the underlying bytes reopened read back exactly the bytes whose write calls that handle accepted (read-back / reopen errors count as inconclusive). sub_runs = faulted executions. Non-trivial: a fault fired and a later handle flush returned Ok and was verified; distinct = distinct seam-log hashes.",
+        rule: "one workload (its fault positions spread over 8 cases, k mod 8) = a drawn mutating workload from an empty file (create storages/streams; handle writes that stay mini, stay regular, migrate both ways; set_len; removes; setters; explicit flush on handles and on the file; <= 40 calls, V3/V4, drawn max_buffer_size). A fault-free reference run counts the N underlying seam calls; then the workload is re-run with one fault at EVERY k in 1..N in each kind applicable to call k: fail (F-WE / F-SE / F-FE / F-RE), torn write with a drawn prefix (F-WT), and disk-full from k on, healed after the first failing API call (F-DF). A failing API call is retried (<= 3 times), then the rest of the workload runs. Oracles: (1) an API call during which a write/seek/flush fault fired returns Err; (2) nothing panics or exceeds its step budget; (3) whenever flush() on a handle returns Ok - first try or retry - a fresh handle on the live file AND the underlying bytes reopened (every third workload: the bytes made durable by the underlying file's own last successful flush - write-back-cache model) read back exactly the bytes whose write calls that handle accepted (read-back / reopen errors count as inconclusive). sub_runs = faulted executions. Non-trivial: a fault fired and a later handle flush returned Ok and was verified; distinct = distinct seam-log hashes.",
         assumptions: &["Drop is never relied upon to write back (excluded by the statement): the workload flushes explicitly", "after a failed set_len or failed structural call the affected stream's expected content is unknown and no longer judged (inconclusive)"],
         cpu_limit_s: 180,
         fault_kinds: "F-WE, F-WT, F-SE, F-FE, F-RE at every k (enumerated), F-DF from every k with heal",
@@ -124,6 +124,9 @@ pub fn gen(seed: u64, idx: u64, _tier: Tier) -> Case {
     c.params.insert("torn_seed".into(), (rng.next_u64() >> 2) as i64);
     c.params.insert("slice".into(), slice as i64);
     c.params.insert("nslices".into(), SLICES as i64);
+    if idx % 3 == 2 {
+        c.params.insert("durable".into(), 1);
+    }
     c
 }
 
@@ -149,6 +152,15 @@ fn is_write_class(name: &str) -> bool {
 
 fn execute(case: &Case, plan: &[Fault], heal_after_first_failure: bool) -> RunOut {
     let disk = SimDisk::with_plan(Vec::new(), plan.to_vec());
+    // every third workload: the underlying file is a write-back cache; only what was written
+    // before a successful flush() of the underlying file counts as "in the compound file"
+    let durable_mode = case.param("durable", 0) == 1;
+    if durable_mode {
+        disk.0.borrow_mut().durable = Some(Vec::new());
+    }
+    // failing calls that were never brought to success: after one, an unreadable image proves nothing
+    let mut unrecovered = 0u64;
+    let mut torn_fired = false;
     let mut out = RunOut { n_events: 0, violation: None, fired: Default::default(), verified_after_fault: 0, inconclusive: 0, trace: 0 };
     crate::driver::set_clock(crate::ops::T { secs: 1_600_000_000, nanos: 0 });
     let fin = |out: &mut RunOut, disk: &SimDisk| {
@@ -193,7 +205,7 @@ fn execute(case: &Case, plan: &[Fault], heal_after_first_failure: bool) -> RunOu
     let mut hs: Vec<Option<HState>> = vec![None, None, None, None];
     // content of streams as last established by a successful whole-stream write or a verified flush
     let mut known: BTreeMap<String, Vec<u8>> = BTreeMap::new();
-    let mut reopened_at_fault_count: u64 = 0;
+    let mut reopened_at_fault_count: u64 = u64::MAX;
     // paths whose content is uncertain because a structural / whole-stream call failed
     let mut tainted: BTreeSet<String> = BTreeSet::new();
     'ops: for (i, op) in case.ops.iter().enumerate() {
@@ -240,6 +252,9 @@ fn execute(case: &Case, plan: &[Fault], heal_after_first_failure: bool) -> RunOu
                 eprintln!("step {} try {} {} -> {} fired={:?} k={}", i, tries, op.to_json(), got.brief(), fired, lib.disk.k());
             }
             let write_fault = fired.iter().any(|(_, n)| is_write_class(n));
+            // a torn write leaves bytes in the file that nobody chose; if they land in an
+            // allocation table the library cannot know, so the image rule stands down
+            torn_fired |= fired.iter().any(|(_, n)| *n == "F-WT");
             match &got {
                 Res::Panic(p) => {
                     out.violation = Some(("panic".into(), normalise_site(p), format!("step {} {} (attempt {}) panicked: {}", i, op.to_json(), tries, p), i));
@@ -418,8 +433,27 @@ fn execute(case: &Case, plan: &[Fault], heal_after_first_failure: bool) -> RunOu
                                         break;
                                     }
                                     reopened_at_fault_count = any_fault;
-                                    let snap = SimDisk::new(lib.disk.snapshot());
-                                    if let Ok(mut l2) = Lib::open(snap, false, case.bufsize) {
+                                    let bytes = if durable_mode { lib.disk.0.borrow().durable.clone().unwrap_or_default() } else { lib.disk.snapshot() };
+                                    let what = if durable_mode { "the bytes made durable by the underlying file's last successful flush" } else { "the underlying bytes" };
+                                    let snap = SimDisk::new(bytes);
+                                    let opened = Lib::open(snap, false, case.bufsize);
+                                    if opened.is_err() && unrecovered == 0 && tainted.is_empty() && !torn_fired {
+                                        out.violation = Some((
+                                            "image-unreadable-after-ok-flush".into(),
+                                            "h_flush".into(),
+                                            format!(
+                                                "step {} {} (attempt {}) returned Ok and every failed call of this run was retried successfully, but {} no longer open: {}",
+                                                i,
+                                                op.to_json(),
+                                                tries,
+                                                what,
+                                                opened.as_ref().err().map(|r| r.brief()).unwrap_or_default()
+                                            ),
+                                            i,
+                                        ));
+                                        break 'ops;
+                                    }
+                                    if let Ok(mut l2) = opened {
                                         l2.budget_base = 400_000;
                                         match l2.exec(&Op::ReadWhole(st.path.clone())) {
                                             Res::Bytes(b2) => {
@@ -429,10 +463,11 @@ fn execute(case: &Case, plan: &[Fault], heal_after_first_failure: bool) -> RunOu
                                                         "not-in-file-after-ok-flush".into(),
                                                         "h_flush".into(),
                                                         format!(
-                                                            "step {} {} (attempt {}) returned Ok and the live object reads the data back, but the underlying bytes reopened hold {} bytes for {:?} where the accepted writes amount to {} bytes (first mismatch at {:?})",
+                                                            "step {} {} (attempt {}) returned Ok and the live object reads the data back, but {} reopened hold {} bytes for {:?} where the accepted writes amount to {} bytes (first mismatch at {:?})",
                                                             i,
                                                             op.to_json(),
                                                             tries,
+                                                            what,
                                                             b2.len(),
                                                             st.path,
                                                             want.len(),
@@ -443,6 +478,25 @@ fn execute(case: &Case, plan: &[Fault], heal_after_first_failure: bool) -> RunOu
                                                     l2.close();
                                                     break 'ops;
                                                 }
+                                            }
+                                            Res::Err(..) if unrecovered == 0 && tainted.is_empty() && !torn_fired => {
+                                                let r = l2.exec(&Op::ReadWhole(st.path.clone()));
+                                                out.violation = Some((
+                                                    "unreadable-in-file-after-ok-flush".into(),
+                                                    "h_flush".into(),
+                                                    format!(
+                                                        "step {} {} (attempt {}) returned Ok, the live object reads the data back and every failed call of this run was retried successfully, but in {} reopened {:?} cannot be read: {}",
+                                                        i,
+                                                        op.to_json(),
+                                                        tries,
+                                                        what,
+                                                        st.path,
+                                                        r.brief()
+                                                    ),
+                                                    i,
+                                                ));
+                                                l2.close();
+                                                break 'ops;
                                             }
                                             _ => out.inconclusive += 1,
                                         }
@@ -464,6 +518,9 @@ fn execute(case: &Case, plan: &[Fault], heal_after_first_failure: bool) -> RunOu
             }
             if is_err && tries < 4 && !fired.is_empty() {
                 continue; // retry the failed call
+            }
+            if is_err && (tries > 1 || !fired.is_empty()) {
+                unrecovered += 1;
             }
             if is_err {
                 // failed for good (or a set_len failed at all): give the object up
